@@ -175,6 +175,13 @@ void runConnectionOn(Server *server, Val &log, const Val &ops)
     for (auto &op : ops.l) r.step(op);
     r.finish();
 }
+// the same, calling [afterOp] after every operation
+void runConnectionOnEach(Server *server, Val &log, const Val &ops, const std::function<void()> &afterOp)
+{
+    ConnRunner r(server, &log);
+    for (auto &op : ops.l) { r.step(op); afterOp(); }
+    r.finish();
+}
 // the same, calling [accepted] right after the connection has been handed to the server
 static void runConnectionOn(Server *server, Val &log, const Val &ops, const std::function<void()> &accepted)
 {
